@@ -181,7 +181,7 @@ class LhDeck4SensorPositions:
         (_sensor_distance_length / 2, _sensor_distance_width / 2, 0.0),
         (_sensor_distance_length / 2, -_sensor_distance_width / 2, 0.0)])
 
-    diagonal_distance = np.sqrt(_sensor_distance_length ** 2 + _sensor_distance_length ** 2)
+    diagonal_distance = np.sqrt(_sensor_distance_length ** 2 + _sensor_distance_width ** 2)
 
 
 class LhException(RuntimeError):
